@@ -204,6 +204,41 @@ func (x *Exec) solveAll(obls []*Oblig, cfg solveCfg) {
 	}
 	close(ch)
 	wg.Wait()
+	// calm retry: an obligation on which every solver merely ran out of time (no solver answered `unknown`) may be
+	// a victim of machine load (several checks running side by side); a few of them are retried two at a time
+	// with three times the budget once the parallel phase is over. A proof found then is a proof.
+	var late []*Oblig
+	for _, o := range obls {
+		if o.Kind == "goal" && o.Status == "failed" && strings.Contains(o.Output, "timeout") && !strings.Contains(o.Output, "unknown") && !strings.Contains(o.Output, "disagreement") {
+			late = append(late, o)
+		}
+	}
+	if len(late) > 0 && len(late) <= 12 && !cfg.all {
+		ch2 := make(chan *Oblig)
+		var wg2 sync.WaitGroup
+		for w := 0; w < 2; w++ {
+			wg2.Add(1)
+			go func() {
+				defer wg2.Done()
+				for o := range ch2 {
+					q := x.queryText(o, prelude)
+					for _, sv := range solvers(cfg.timeoutS * 3)[:2] {
+						r, _, ms := runSolver(sv, q, cfg.timeoutS*3)
+						o.Ms += ms
+						if r == "unsat" {
+							o.Status, o.Backend, o.Output = "proved", sv.name+"(calm retry)", ""
+							break
+						}
+					}
+				}
+			}()
+		}
+		for _, o := range late {
+			ch2 <- o
+		}
+		close(ch2)
+		wg2.Wait()
+	}
 }
 
 func (x *Exec) solveOne(o *Oblig, prelude string, cfg solveCfg) {
